@@ -11,3 +11,225 @@ Proof.
   intros V d id. unfold recover_streams, readable. f_equal. f_equal.
   induction d as [|f r IH]; simpl; auto. destruct (i_magic f) eqn:E; simpl; rewrite ?E; congruence.
 Qed.
+
+(* ---------------------------------------------------------------- state files *)
+Section StateFiles.
+Variable S : Type.
+
+Lemma recover_state_ignores_torn_gen : forall (d : list (sfile S)) cur,
+  pick_state cur d = pick_state cur (filter s_ok d).
+Proof.
+  induction d as [|f r IH]; intros cur; simpl; auto.
+  destruct (s_ok f) eqn:E; simpl.
+  - rewrite E. simpl. destruct (negb _); apply IH.
+  - apply IH.
+Qed.
+
+Lemma recover_state_ignores_torn : forall (d : list (sfile S)),
+  recover_state d = recover_state (filter s_ok d).
+Proof. intros. apply recover_state_ignores_torn_gen. Qed.
+
+Definition closes (l : list (sstep S)) : N :=
+  fold_right (fun s a => match s with SClose _ => a + 1 | _ => a end) 0 l.
+
+Lemma closes_app : forall a b, closes (a ++ b) = closes a + closes b.
+Proof.
+  induction a as [|x a IH]; intros b; simpl; [lia|]. rewrite IH. destruct x; lia.
+Qed.
+
+(* directory between two saves: exactly the file of save k-1 *)
+Definition dir_ok (k : N) (prev : option S) (d : list (sfile S)) : Prop :=
+  match prev with
+  | None => k = 1 /\ d = []
+  | Some p => 1 < k /\ d = [mkS (k - 1, 0) true (k - 1) p]
+  end.
+
+Definition view (o : option (sfile S)) : option (N * S) := option_map (fun f => (s_stamp f, s_data f)) o.
+
+Definition expected (k : N) (prev : option S) (ss : list S) (j : N) : option (N * S) :=
+  if j =? 0 then option_map (fun p => (k - 1, p)) prev
+  else option_map (fun s => (k - 1 + j, s)) (nth_error ss (N.to_nat (j - 1))).
+
+Lemma ltb_self_pred : forall k, 1 < k ->
+  (k <? k - 1) = false /\ (k =? k - 1) = false /\ (k - 1 =? k) = false /\ (k =? 1) = false.
+Proof.
+  intros k H. repeat split.
+  - apply N.ltb_ge. lia.
+  - apply N.eqb_neq. lia.
+  - apply N.eqb_neq. lia.
+  - apply N.eqb_neq. lia.
+Qed.
+
+Ltac norm E1 E2 E3 :=
+  repeat (progress (unfold fname_ltb, fname_eqb; simpl; rewrite ?E1, ?E2, ?E3, ?N.eqb_refl, ?N.ltb_irrefl; simpl)).
+
+Lemma save_steps_full : forall k prev d s, dir_ok k prev d ->
+  dir_ok (k + 1) (Some s) (fold_left apply_sstep (save_steps k s) d).
+Proof.
+  intros k prev d s H. unfold dir_ok in *. destruct prev as [p|].
+  - destruct H as [Hk ->]. destruct (ltb_self_pred k Hk) as [E1 [E2 [E3 E4]]].
+    unfold save_steps. rewrite E4. norm E1 E2 E3.
+    split; [lia|]. replace (k + 1 - 1) with k by lia. reflexivity.
+  - destruct H as [-> ->]. simpl. split; [lia|]. reflexivity.
+Qed.
+
+Lemma closes_save_steps : forall k s, closes (save_steps k s) = 1.
+Proof. intros. unfold save_steps. destruct (k =? 1); reflexivity. Qed.
+
+(* a crash inside save k *)
+Lemma save_steps_prefix : forall k prev d s pre post, dir_ok k prev d ->
+  save_steps k s = pre ++ post ->
+  view (recover_state (fold_left apply_sstep pre d)) = expected k prev [s] (closes pre).
+Proof.
+  intros k prev d s pre post H E. unfold dir_ok in H. unfold save_steps in E.
+  destruct prev as [p|].
+  - destruct H as [Hk ->]. destruct (ltb_self_pred k Hk) as [E1 [E2 [E3 E4]]].
+    rewrite E4 in E. simpl in E.
+    destruct pre as [|a [|b [|c [|x pre]]]]; simpl in E.
+    + reflexivity.
+    + injection E as <- _. norm E1 E2 E3. unfold recover_state. simpl. reflexivity.
+    + injection E as <- <- _. norm E1 E2 E3. unfold recover_state. norm E1 E2 E3.
+      unfold expected. simpl. replace (k - 1 + 1) with k by lia. reflexivity.
+    + injection E as <- <- <- _. norm E1 E2 E3. unfold recover_state. norm E1 E2 E3.
+      unfold expected. simpl. replace (k - 1 + 1) with k by lia. reflexivity.
+    + discriminate.
+  - destruct H as [-> ->]. simpl in E.
+    destruct pre as [|a [|b [|x pre]]]; simpl in E.
+    + reflexivity.
+    + injection E as <- _. reflexivity.
+    + injection E as <- <- _. reflexivity.
+    + discriminate.
+Qed.
+
+Lemma app_eq_app_split : forall {A} (l1 l2 l3 l4 : list A), l1 ++ l2 = l3 ++ l4 ->
+  (exists m, l3 = l1 ++ m /\ l2 = m ++ l4) \/ (exists m, l1 = l3 ++ m /\ l4 = m ++ l2).
+Proof.
+  intros A l1. induction l1 as [|x l1 IH]; intros l2 l3 l4 H; simpl in H.
+  - left. exists l3. auto.
+  - destruct l3 as [|y l3]; simpl in H.
+    + right. exists (x :: l1). auto.
+    + injection H as <- H. destruct (IH _ _ _ H) as [[m [-> ->]]|[m [-> ->]]].
+      * left. exists m. auto.
+      * right. exists m. auto.
+Qed.
+
+Lemma state_recovery_gen : forall ss k prev d, dir_ok k prev d ->
+  forall pre post, all_save_steps k ss = pre ++ post ->
+  view (recover_state (fold_left apply_sstep pre d)) = expected k prev ss (closes pre).
+Proof.
+  induction ss as [|s r IH]; intros k prev d H pre post E; cbn [all_save_steps] in E.
+  - destruct pre; [|discriminate]. simpl. unfold dir_ok in H. destruct prev as [p|].
+    + destruct H as [_ ->]. reflexivity.
+    + destruct H as [_ ->]. reflexivity.
+  - destruct (app_eq_app_split _ _ _ _ E) as [[m [-> Em]]|[m [Es Ep]]].
+    + (* the whole save k is in the prefix *)
+      rewrite fold_left_app. rewrite closes_app, closes_save_steps.
+      pose proof (save_steps_full k prev d s H) as H'.
+      rewrite (IH (k + 1) (Some s) _ H' m post Em).
+      unfold expected. destruct (closes m =? 0) eqn:Ej.
+      * apply N.eqb_eq in Ej. rewrite Ej. simpl. replace (k + 1 - 1) with k by lia.
+        replace (k - 1 + 1) with k by (unfold dir_ok in H; destruct prev; lia). reflexivity.
+      * apply N.eqb_neq in Ej. assert (1 + closes m =? 0 = false) as -> by (apply N.eqb_neq; lia).
+        replace (N.to_nat (1 + closes m - 1)) with (Datatypes.S (N.to_nat (closes m - 1))) by lia.
+        simpl. replace (k + 1 - 1 + closes m) with (k - 1 + (1 + closes m)) by (unfold dir_ok in H; destruct prev; lia).
+        reflexivity.
+    + (* the crash is inside save k *)
+      rewrite (save_steps_prefix k prev d s pre m H Es).
+      assert (closes pre <= 1) as Hle.
+      { pose proof (closes_save_steps k s) as Hc. rewrite Es, closes_app in Hc. lia. }
+      unfold expected. destruct (closes pre =? 0) eqn:Ez; auto. apply N.eqb_neq in Ez.
+      assert (closes pre = 1) as -> by lia.
+      reflexivity.
+Qed.
+
+(* EVERY history of state saves, EVERY crash point: the restart takes the newest save whose file was
+   closed; saves whose steps are all in the prefix are among them *)
+Theorem state_recovery : forall (ss : list S) pre post,
+  all_save_steps 1 ss = pre ++ post ->
+  view (recover_state (run_ssteps pre)) =
+    (if closes pre =? 0 then None
+     else option_map (fun s => (closes pre, s)) (nth_error ss (N.to_nat (closes pre - 1)))).
+Proof.
+  intros ss pre post E. unfold run_ssteps.
+  rewrite (state_recovery_gen ss 1 None [] (conj eq_refl eq_refl) pre post E).
+  unfold expected. destruct (closes pre =? 0); auto.
+Qed.
+
+End StateFiles.
+
+(* ---------------------------------------------------------------- index stacks *)
+Lemma visible_from : forall {V} (fs : list (list (N * V))) id v,
+  visible fs id = Some v -> exists s, In s fs /\ lookup s id = Some v.
+Proof.
+  intros V. induction fs as [|s r IH]; intros id v H; simpl in H; [discriminate|].
+  destruct (visible r id) as [w|] eqn:E.
+  - injection H as ->. destruct (IH id v E) as [s' [H1 H2]]. exists s'. split; auto. right; auto.
+  - exists s. split; auto. left; auto.
+Qed.
+
+(* along the stack the versions of every stream never decrease *)
+Fixpoint mono (l : list nstreams) : Prop :=
+  match l with
+  | [] => True
+  | s :: r => (forall t id v w, In t r -> lookup s id = Some v -> lookup t id = Some w -> v <= w) /\ mono r
+  end.
+
+Lemma visible_ge : forall l s id v, mono l -> In s l -> lookup s id = Some v ->
+  exists w, visible l id = Some w /\ v <= w.
+Proof.
+  induction l as [|s0 r IH]; intros s id v Hm Hin Hl; [destruct Hin|].
+  destruct Hm as [Hh Hr]. simpl. destruct Hin as [->|Hin].
+  - destruct (visible r id) as [w|] eqn:E.
+    + destruct (visible_from r id w E) as [t [Ht Hw]]. exists w. split; auto. eapply Hh; eauto.
+    + exists v. split; auto. lia.
+  - destruct (IH s id v Hr Hin Hl) as [w [E Hle]]. rewrite E. exists w. auto.
+Qed.
+
+Lemma find_i_In : forall {V} n (d : list (ifile V)) f, find_i n d = Some f -> In f d /\ fname_eqb (i_name f) n = true.
+Proof.
+  intros V n. induction d as [|g r IH]; intros f H; simpl in H; [discriminate|].
+  destruct (fname_eqb (i_name g) n) eqn:E.
+  - injection H as <-. split; auto. left; auto.
+  - destruct (IH f H). split; auto. right; auto.
+Qed.
+
+Lemma streams_of_In : forall d names s, In s (streams_of d names) ->
+  (forall n, In n names -> is_complete d n = true) ->
+  exists f, In f d /\ i_magic f = true /\ i_streams f = s.
+Proof.
+  intros d names s H Hc. unfold streams_of in H. apply in_map_iff in H. destruct H as [n [Hs Hn]].
+  specialize (Hc n Hn). unfold is_complete in Hc. destruct (find_i n d) as [f|] eqn:E; [|discriminate].
+  destruct (find_i_In n d f E) as [Hin _]. exists f. auto.
+Qed.
+
+(* If the readable files, in name order, never show an older version after a newer one, a restart
+   shows every stream the running manager showed, in that or a newer version. *)
+Theorem restart_shows_memory_or_newer : forall st id v,
+  mono (map i_streams (readable (disk st))) ->
+  (forall n, In n (mem st) -> is_complete (disk st) n = true) ->
+  mem_view st id = Some v ->
+  exists w, restart_view st id = Some w /\ v <= w.
+Proof.
+  intros st id v Hm Hc Hv. unfold mem_view in Hv. unfold restart_view, recover_streams.
+  destruct (visible_from _ _ _ Hv) as [s [Hs Hl]].
+  destruct (streams_of_In _ _ _ Hs Hc) as [f [Hf [Hmg <-]]].
+  apply (visible_ge _ (i_streams f)); auto.
+  apply in_map. unfold readable. apply filter_In. auto.
+Qed.
+
+(* the known interleaving: import A, import B, merge of [A,B] created, import C (new version of
+   stream 0) created and completed, merge completed and published, import published *)
+Definition shadow_history : list ev :=
+  [ImpCreate [(0, 1)]; ImpMagic; ImpPublish;
+   ImpCreate [(1, 1); (2, 1)]; ImpMagic; ImpPublish;
+   ImpCreate [(0, 2)];           (* import C has created its file ... *)
+   MrgCreate 0;                  (* ... when the merge of [A,B] creates its own *)
+   ImpMagic; MrgMagic; MrgPublish; ImpPublish; MrgRemove; MrgRemove].
+
+Lemma unpatched_restart_shows_old_version :
+  mem_view (run_m false shadow_history) 0 = Some 2 /\ restart_view (run_m false shadow_history) 0 = Some 1.
+Proof. vm_compute. split; reflexivity. Qed.
+
+Lemma patched_restart_shows_new_version :
+  mem_view (run_m true shadow_history) 0 = Some 2 /\ restart_view (run_m true shadow_history) 0 = Some 2.
+Proof. vm_compute. split; reflexivity. Qed.
